@@ -39,6 +39,8 @@ EXPORTS = {
     "export_stl": lambda sc, n: sc.export_stl(filename=common.os.path.join(common.REPLAYS, "c08_export.stl"), section_resolution=6),
     "export_vtk": lambda sc, n: sc.export_vtk(filename=common.os.path.join(common.REPLAYS, "c08_export.vtk"), section_resolution=6),
     "export_pylot_model": lambda sc, n: sc.export_pylot_model(filename=common.os.path.join(common.REPLAYS, "c08_pylot.json")),
+    "distributions_degrees": lambda sc, n: sc.distributions(radians=False),
+    "distributions_file": lambda sc, n: sc.distributions(filename=common.os.path.join(common.REPLAYS, "c08_dist.csv"), radians=False),
 }
 
 
@@ -52,6 +54,13 @@ def side_effect_sweep(chk, MX, n):
         wind = rng.random() < 0.6
         sd, acs = scene_for(chk, MX, multi, wind)
         done += 1
+        if done % 2 == 0:
+            # keys of other tools that share the aircraft file (Pylot's travel limit of a control) are carried along, not acted upon: the
+            # commanded deflections below exceed it
+            for nm_, ac_, st_, cs_ in acs:
+                for c_ in ac_["controls"].values():
+                    c_["max_deflection"] = 1.5
+            chk.count("controls-with-foreign-keys")
         try:
             sc = gen.build_scene(MX, sd, acs)
             before_fm = api.solve(sc)
